@@ -655,3 +655,19 @@ where
 
     Ok(keys)
 }
+
+/// Read-only accessors to the private glob helpers for the external verification harness.
+#[cfg(feature = "verif-hooks")]
+pub mod verif {
+    /// The regex source that [`super::expand_cloud_glob`] compiles for `pattern`.
+    #[must_use]
+    pub fn glob_to_regex(pattern: &str) -> String {
+        super::glob_to_regex(pattern)
+    }
+
+    /// The listing prefix that [`super::expand_cloud_glob`] passes to `list_objects`.
+    #[must_use]
+    pub fn extract_prefix(pattern: &str) -> Option<String> {
+        super::extract_prefix_before_wildcard(pattern)
+    }
+}
